@@ -1,6 +1,7 @@
 package main
 
 import (
+	"context"
 	"encoding/json"
 	"fmt"
 	"os"
@@ -142,13 +143,23 @@ func raceMain(verif, prop, tier string, seed uint64, cfg propCfg, tc tierCfg, re
 					return
 				}
 				out.Close()
-				cmd := exec.Command(bin, "-test.run", "^TestRace$", "-test.timeout", "0")
+				// a corrupted in-memory structure can make a workload spin for ever: bound every worker
+				wctx, wcancel := context.WithTimeout(context.Background(), 120*time.Second)
+				cmd := exec.CommandContext(wctx, bin, "-test.run", "^TestRace$", "-test.timeout", "0")
 				cmd.Env = append(os.Environ(), "VERIF_RACE=1", "VERIF_PROP="+prop, fmt.Sprintf("VERIF_SEED=%d", seed), fmt.Sprintf("VERIF_FROM=%d", idx), fmt.Sprintf("VERIF_TO=%d", idx+1),
 					"VERIF_OUT="+out.Name(), "GORACE=exitcode=0 halt_on_error=0", "GOMAXPROCS=6")
 				if replaySc != "" {
 					cmd.Env = append(cmd.Env, "VERIF_REPLAY_SC="+replaySc)
 				}
 				ob, rerr := cmd.CombinedOutput()
+				timedOut := wctx.Err() != nil
+				wcancel()
+				_ = timedOut
+				if rerr != nil && !strings.Contains(string(ob), "RACE-RUN-END") && strings.Contains(string(ob), "WARNING: DATA RACE") {
+					// the run never ended (spinning on, or crashed by, a structure the race had corrupted),
+					// but the detector had already reported: keep the reports
+					ob = append(ob, []byte("\nRACE-RUN-END (worker did not finish: "+rerr.Error()+")\n")...)
+				}
 				b, _ := os.ReadFile(out.Name())
 				os.Remove(out.Name())
 				mu.Lock()
